@@ -115,6 +115,17 @@ func matchSpec(fn *ssa.Function, in ssa.Instruction, spec string, selSend map[*s
 			}
 		}
 		return false
+	case "call-now":
+		// like call, but only a call executed at this point (not a defer or go statement)
+		if c, ok := in.(*ssa.Call); ok {
+			if f := c.Common().StaticCallee(); f != nil {
+				return originOf(f).Name() == arg
+			}
+			if c.Common().IsInvoke() {
+				return c.Common().Method.Name() == arg
+			}
+		}
+		return false
 	case "go-captures":
 		g, ok := in.(*ssa.Go)
 		if !ok {
@@ -308,13 +319,67 @@ func selectSendBlocks(fn *ssa.Function) map[*ssa.BasicBlock]bool {
 	return out
 }
 
+// runFlowCheck checks one flow obligation. A target "F$*" stands for the function literals of F (at any
+// depth) that contain an instruction matching one of the obligation's non-trivial from/until points, so that
+// the obligation does not depend on how many other literals F has; there must be at least one.
 func runFlowCheck(P *Program, fc FlowCheck) flowResult {
-	res := flowResult{fc: fc}
-	fn, err := P.FindFunc(nil, fc.Func)
-	if err != nil {
-		res.err = err.Error()
+	if strings.HasSuffix(fc.Func, "$*") {
+		res := flowResult{fc: fc}
+		parent, err := P.FindFunc(nil, strings.TrimSuffix(fc.Func, "$*"))
+		if err != nil {
+			res.err = err.Error()
+			return res
+		}
+		var lits []*ssa.Function
+		var walk func(f *ssa.Function)
+		walk = func(f *ssa.Function) {
+			for _, a := range f.AnonFuncs {
+				lits = append(lits, a)
+				walk(a)
+			}
+		}
+		walk(parent)
+		trivial := map[string]bool{"entry": true, "return": true, "select": true}
+		n := 0
+		for _, lit := range lits {
+			sel := selectSendBlocks(lit)
+			has := false
+			for _, b := range lit.Blocks {
+				for _, in := range b.Instrs {
+					for _, sp := range append(append([]string{}, fc.From...), fc.Until...) {
+						if !trivial[sp] && matchSpec(lit, in, sp, sel) {
+							has = true
+						}
+					}
+				}
+			}
+			if !has {
+				continue
+			}
+			n++
+			one := fc
+			one.Func = lit.String()
+			if r := runFlowCheckFn(P, one, lit); !r.ok {
+				r.fc = fc
+				return r
+			}
+		}
+		if n == 0 {
+			res.err = "contract-target-missing: no function literal of " + parent.String() + " contains the from/until points"
+			return res
+		}
+		res.ok = true
 		return res
 	}
+	fn, err := P.FindFunc(nil, fc.Func)
+	if err != nil {
+		return flowResult{fc: fc, err: err.Error()}
+	}
+	return runFlowCheckFn(P, fc, fn)
+}
+
+func runFlowCheckFn(P *Program, fc FlowCheck, fn *ssa.Function) flowResult {
+	res := flowResult{fc: fc}
 	if len(fn.Blocks) == 0 {
 		res.err = "function has no body"
 		return res
